@@ -143,7 +143,12 @@ class HistorySuite(Suite):
                 else:
                     ops.append(["add_unseen", [[rp() for _ in range(rng.choice([1, 2, 3]))] for _ in range(rng.choice([1, 2, 3]))]])
             lks = [["group", rp()] for _ in range(3)] + [[rng.choice(["idxs", "groups", "leading"]), [rp() for _ in range(rng.choice([1, 2, 3]))]] for _ in range(4)]
-            yield {"init": init, "ops": ops, "lookups": lks}
+            c = {"init": init, "ops": ops, "lookups": lks}
+            if rng.random() < 0.3:
+                # a second, unrelated collection lives in the same process and is (re-)indexed between the operations: every object
+                # answers from its own index
+                c["bystander"] = [[rp() for _ in range(rng.choice([1, 2]))] for _ in range(rng.choice([1, 2, 3]))]
+            yield c
 
     def impl(self, case):
         from picked_group_fdr.protein_groups import ProteinGroups
@@ -173,6 +178,9 @@ class HistorySuite(Suite):
                     res = {"ok": [[list(g) for g in obs], [int(i) for i in obs_infos]]}
             except Exception as e:
                 res = {"raise": gens.exn_name(e)}
+            if case.get("bystander"):
+                by = ProteinGroups.init_from_list([list(g) for g in case["bystander"]])
+                by.remove_empty_groups()
             steps.append({"res": res, "groups": [list(g) for g in pg.protein_groups],
                           "valid": bool(pg.valid_idx),
                           "lookups": [do_lookup(pg, l) for l in case["lookups"]]})
@@ -209,9 +217,9 @@ class HistorySuite(Suite):
     def shrink(self, case):
         ops = case["ops"]
         for i in range(len(ops)):
-            yield {"init": case["init"], "ops": ops[:i] + ops[i + 1:], "lookups": case["lookups"]}
+            yield dict(case, ops=ops[:i] + ops[i + 1:])
         for i in range(len(case["lookups"])):
-            yield {"init": case["init"], "ops": ops, "lookups": case["lookups"][:i] + case["lookups"][i + 1:]}
+            yield dict(case, lookups=case["lookups"][:i] + case["lookups"][i + 1:])
 
 
 def property_violation(case, out):
